@@ -61,8 +61,16 @@ class PageFeatureProcessor:
         # --- Logic from DocumentService.apply_pagination_borders ---
 
         # 1. First Page Logic
-        has_column_headers = (
-            document.rtf_column_header and len(document.rtf_column_header) > 0
+        # A header row is rendered above the body only for a header object that
+        # has text of its own or is auto-populated from the column names
+        # ([None] and as_colheader=False leave the data row as first table row).
+        flat_headers = []
+        for header in document.rtf_column_header or []:
+            flat_headers.extend(header if isinstance(header, list) else [header])
+        auto_header = bool(getattr(document.rtf_body, "as_colheader", False))
+        has_column_headers = any(
+            header is not None and (header.text is not None or auto_header)
+            for header in flat_headers
         )
 
         # If first page, NO headers, apply PAGE border_first to top of body
